@@ -67,7 +67,15 @@ def gen_dataset(s: Choices, vdtype: str, tier: str, max_n: int = 200, allow_mult
     val_idx = [[] for _ in range(ncols)]
     mask_bits = []
     null_rate = s.weighted([(4, 0), (3, 1), (1, 2)])  # none / some / many null keys
-    for _ in range(n):
+    n_target = n
+    n = 0
+    while n < max_n:
+        row_start = s.begin()
+        # "one more row?" -- decided by the size drawn above when generating, read
+        # back from the list when replaying (so that a row can be deleted)
+        if not s.forced(1 if n < n_target else 0):
+            break
+        n += 1
         for k in range(nkeys):
             gk = gs[k]
             c = s.draw(gk + 2)
@@ -81,6 +89,14 @@ def gen_dataset(s: Choices, vdtype: str, tier: str, max_n: int = 200, allow_mult
         for c_ in range(ncols):
             val_idx[c_].append(s.draw(7))
         mask_bits.append(s.draw(2))
+        s.end(row_start)
+    if n == 0:  # at least one row
+        n = 1
+        for k in range(nkeys):
+            key_codes[k].append(0)
+        for c_ in range(ncols):
+            val_idx[c_].append(0)
+        mask_bits.append(0)
     # placement of the first key
     placement = s.weighted([(4, "random"), (3, "sorted"), (3, "sorted_prefix"), (2, "group_per_block"), (1, "late_rare")])
     codes = key_codes[0]
